@@ -158,6 +158,20 @@ def run_case(case, obs=None):
     exp = expected(buf)
     if obs is not None:
         obs.append((text, exp))
+    if text is not None and not show:
+        # the recipe the shipped tools show: catch the error, switch the dump on afterwards (ex.show_data = True), print it
+        try:
+            e2 = SCSICheckCondition(bytearray(buf))
+            e2.show_data = True
+            s2 = io.StringIO()
+            with contextlib.redirect_stdout(s2):
+                t2 = str(e2)
+            e2.show_data = False
+            if t2 != text or len(s2.getvalue().splitlines()) != len(e2.data):
+                out.append(("show_data_assignment/%s" % fmt, "sense %s: after ex.show_data = True, str() gives %r and dumps %d lines (text without dump %r, %d fields)"
+                            % (buf[:20].hex(), t2, len(s2.getvalue().splitlines()), text, len(e2.data))))
+        except Exception as ex:   # noqa: BLE001
+            out.append(("show_data_assignment/%s" % fmt, "sense %s: ex.show_data = True; str(ex) raised %s: %s" % (buf[:20].hex(), type(ex).__name__, ex)))
     if text is not None:
         # a process without standard output (daemon started with fd 1 closed, pythonw: sys.stdout is None - print() tolerates that)
         import sys
